@@ -17,6 +17,29 @@ CLAIMS = {
              'for every state and operand within N node numbers, K new nodes, L variables.',
         note='Bounds N,K,L as listed in evidence; z3 and CPython trusted; proxies validated per run by concrete replay of path witnesses.',
         ref='DESIGN.md section 8 C01'),
+    'C03': dict(
+        text='Bounded symbolic model checking: the real quantify/_quantify/exist/forall and apply(\\A,\\E) run over a symbolic node table; '
+             'z3 proves the result equals the bit-vector quantification of the operand for every state/operand within the bounds, every variable subset and both quantifiers.',
+        note='ite/find_or_add replaced by contract stubs discharged by the C01 kernels on the same tree; bounds in evidence.',
+        ref='DESIGN.md section 8 C03'),
+    'C04': dict(
+        text='Bounded symbolic model checking of let/cofactor/compose/vector compose/rename against bit-vector simultaneous substitution, '
+             'operand, replacement functions and Boolean values symbolic, variable maps iterated.',
+        note='ite/find_or_add contract stubs (C01 kernels); bounds in evidence.',
+        ref='DESIGN.md section 8 C04'),
+    'C06': dict(
+        text='Bounded symbolic model checking of collect_garbage (full and rooted) from an arbitrary valid state with an arbitrary ledger of external references: '
+             'referenced nodes and their descendants survive unchanged, exactly the needed nodes remain, counts stay exact, no cache entry names a freed node.',
+        note='One inductive step from arbitrary valid state (INV); bounds in evidence; set.pop order explored as nondeterministic choice at the small bound.',
+        ref='DESIGN.md section 8 C06'),
+    'C07': dict(
+        text='Bounded symbolic model checking of swap of adjacent levels from an arbitrary valid state with ledger: held nodes keep number, by-name function and count; manager stays canonical; order maps exchanged.',
+        note='One inductive step; schedulers are compositions of swap; bounds in evidence.',
+        ref='DESIGN.md section 8 C07'),
+    'C10': dict(
+        text='Bounded symbolic model checking of support/is_essential/count/pick_iter/pick (no stubs, read-only) against bit-vector dependence, popcount and cube-cover oracles for every valid manager and operand within the bounds.',
+        note='_assert_int (a Python-type assertion) replaced by identity; levels are concretised by the set/dict lookups of the real code, children and signs stay symbolic.',
+        ref='DESIGN.md section 8 C10'),
 }
 
 NA_PENDING = 'check not built yet in this round (planned: see DESIGN.md section 8)'
